@@ -340,3 +340,73 @@ Proof.
   intros Ha Hp g. unfold g. cbn. unfold gstep. cbn.
   rewrite ip_gen_single by assumption. cbn. auto.
 Qed.
+
+(* ---------- an uncancelled generator that returned has emitted everything ---------- *)
+Definition fin_inv (g : gen) : Prop := finished g = true -> todo g = [] \/ cancelled g = true.
+
+Lemma gstep_fin_inv sel g e : fin_inv g -> fin_inv (gstep sel g e).
+Proof.
+  unfold fin_inv, gstep. intros H. destruct (enabled sel g e) eqn:He; [|exact H].
+  destruct e; cbn [todo cancelled finished].
+  - destruct (todo g) as [|x r] eqn:Et; [rewrite Et; exact H|]. cbn. discriminate.
+  - intros Hf. right. reflexivity.
+  - intros _. right. unfold enabled in He. destruct (cancelled g); [reflexivity|].
+    rewrite andb_false_r in He. discriminate.
+  - intros _. left. unfold enabled in He. destruct (todo g); [reflexivity|].
+    rewrite andb_false_r in He. discriminate.
+Qed.
+
+Lemma grun_fin_inv sel evs : forall g, fin_inv g -> fin_inv (grun sel g evs).
+Proof. induction evs as [|e evs IH]; intros g H; [exact H|]. cbn. apply IH, gstep_fin_inv, H. Qed.
+
+Theorem uncancelled_complete sel a p evs :
+  let g := grun sel (gen_init a p) evs in
+  finished g = true -> cancelled g = false -> sent g = ip_gen a p.
+Proof.
+  intros g Hf Hc.
+  assert (Hi : fin_inv g) by (apply grun_fin_inv; unfold fin_inv, gen_init; cbn; discriminate).
+  destruct (Hi Hf) as [Ht|Ht]; [|rewrite Ht in Hc; discriminate].
+  pose proof (grun_inv sel (ip_gen a p) evs (gen_init a p) eq_refl) as Hg.
+  fold g in Hg. unfold gen_inv in Hg. rewrite Ht, app_nil_r in Hg. exact Hg.
+Qed.
+
+(* ---------- several subnets ---------- *)
+Definition net_ok (n : N * N) : Prop := fst n < two32 /\ 2 <= snd n <= 32.
+
+Lemma estimate_from nets : forall acc,
+  fold_left (fun acc n => acc + compute_net_sz (snd n)) nets acc = acc + estimate nets.
+Proof.
+  unfold estimate. induction nets as [|n nets IH]; intros acc; cbn [fold_left]; [lia|].
+  rewrite (IH (acc + _)), (IH (0 + _)). rewrite N.add_0_l, N.add_assoc. reflexivity.
+Qed.
+
+Theorem estimate_all nets : Forall net_ok nets ->
+  N.of_nat (length (discover_all nets)) = estimate nets.
+Proof.
+  induction 1 as [|n nets [Ha Hp] _ IH]; [reflexivity|].
+  unfold discover_all, estimate in *. cbn [flat_map fold_left]. rewrite app_length, Nat2N.inj_add, IH.
+  rewrite (estimate_from nets (0 + _)). unfold estimate. rewrite estimate_eq_count by assumption. lia.
+Qed.
+
+Theorem discover_all_in nets x :
+  In x (discover_all nets) <-> exists n, In n nets /\ In x (ip_gen (fst n) (snd n)).
+Proof. unfold discover_all. apply in_flat_map. Qed.
+
+Lemma count_occ_nodup (l : list N) x : NoDup l ->
+  count_occ N.eq_dec l x = if existsb (N.eqb x) l then 1%nat else 0%nat.
+Proof.
+  induction 1 as [|y l Hy _ IH]; [reflexivity|].
+  cbn [count_occ existsb]. destruct (N.eq_dec y x) as [->|Hn].
+  - rewrite N.eqb_refl. cbn. rewrite (proj1 (count_occ_not_In N.eq_dec l x) Hy). reflexivity.
+  - replace (x =? y) with false by (symmetry; apply N.eqb_neq; congruence). exact IH.
+Qed.
+
+(* every address is probed once per configured subnet it is a host of, never otherwise *)
+Theorem discover_all_count nets x : Forall net_ok nets ->
+  count_occ N.eq_dec (discover_all nets) x = length (filter (is_host x) nets).
+Proof.
+  induction 1 as [|n nets [Ha Hp] _ IH]; [reflexivity|].
+  unfold discover_all in *. cbn [flat_map filter]. rewrite count_occ_app, IH.
+  rewrite count_occ_nodup by (apply ip_gen_nodup; [assumption|lia]).
+  unfold is_host at 2. destruct (existsb _ _); reflexivity.
+Qed.
